@@ -35,11 +35,17 @@ func init() {
 	})
 	register(&vcore.Prop{
 		ID: "C06", Level: "exploration", Worlds: "K", NeedNS: true,
-		Rule:       "world K: one run = one descriptor list of 1..8 entries over {standard streams, three temporary files, the close marker} with the report pipe at a drawn position, x an option vector, launched for real; the probe dumps fstat identity and flags of descriptors 0..23, compared with the caller's list",
+		Rule:       "world K: one run = one descriptor list of 1..8 entries over {standard streams, three temporary files, the close marker} with the report pipe at a drawn position, x an option vector, launched for real; the probe dumps fstat identity and flags of descriptors 0..23, compared with the caller's list; a quarter of the runs are Execve calls on a real container (1..5 listed descriptors, with/without callback, fexecve) whose init has a host pipe as stderr: nothing unlisted may be open in the program",
 		Components: kComponents, Assumptions: kAssume,
 		Quick:    vcore.Budget{Wall: 15 * time.Second, Shards: 16},
 		Thorough: vcore.Budget{Wall: 6 * time.Minute, Shards: 16},
-		Init:     kInit, Run: cKLaunchRun("C06", false, true), StallLimit: 120 * time.Second,
+		Init:     kInit, StallLimit: 120 * time.Second,
+		Run: func(c *vcore.Ctx) *vcore.Violation {
+			if c.Src.Bool(1, 4, "container_exec") {
+				return c06ContainerRun(c)
+			}
+			return cKLaunchRun("C06", false, true)(c)
+		},
 	})
 	register(&vcore.Prop{
 		ID: "C07", Level: "fault_enumeration", Worlds: "K", NeedNS: true,
